@@ -56,22 +56,17 @@ theorem loop_step_passes {F : Type} [Div F] [OfNat F 0] (toF : Nat → F) (n ste
 
 /-! ### EveryN -/
 
-/-- every-n is true exactly on the multiples of `n`, for `n ≥ 1`. -/
-theorem everyN_iff (n v : Nat) (hn : 1 ≤ n) : everyN n v = .ok (decide (n ∣ v)) := by
-  have : n ≠ 0 := by omega
-  simp only [everyN, this, if_false, Nat.dvd_iff_mod_eq_zero]
-  congr 1
+/-- every-n is true exactly on the multiples of `n` — for every `n`, including `n = 0`, whose only
+multiple is 0 (the code takes `checked_rem`, so there is no remainder by zero). -/
+theorem everyN_iff (n v : Nat) : everyN n v = true ↔ n ∣ v := by
+  unfold everyN checkedRem
+  by_cases hn : n = 0
+  · subst hn; simp
+  · simp [hn, Nat.dvd_iff_mod_eq_zero]
 
-/-- The full statement (also for `n = 0`, whose only multiple is 0) — false of the code, see below. -/
-def everyN_total : Prop := ∀ n v, everyN n v = .ok (decide (n ∣ v))
-
-/-- Recorded finding: with `n = 0` the remainder panics instead of answering `v = 0`. -/
-theorem everyN_zero_panics (v : Nat) : everyN 0 v = .panic := rfl
-
-theorem everyN_not_total : ¬ everyN_total := by
-  intro h
-  have := h 0 0
-  simp [everyN] at this
+/-- The zero case spelled out: with `n = 0` the condition is true at value 0 only. -/
+theorem everyN_zero (v : Nat) : everyN 0 v = true ↔ v = 0 := by
+  simp [everyN, checkedRem]
 
 /-! ### OptimumReached -/
 
@@ -247,7 +242,8 @@ example : (eval (fun _ => .val false) (.and (.cons (.leaf 0 0) (.cons (.not (.le
 example : changeOfRun (partialEq (V := Nat)) none [5, 5, 6, 6] = [true, false, true, false] := by decide
 example : changeOfRun (deltaEq 2) none [5, 6, 8, 8] = [true, false, true, false] := by decide
 example : (loopRun (F := Nat) id 3 1 0 4).map (fun s => (s.passes, s.tests, s.counter)) = some (3, 4, 3) := by decide
-example : everyN 3 9 = .ok true ∧ everyN 3 10 = .ok false := by decide
+example : everyN 3 9 = true ∧ everyN 3 10 = false ∧ everyN 0 0 = true ∧ everyN 0 5 = false ∧
+    everyN 1 0 = true ∧ everyN 4294967295 4294967295 = true := by decide
 
 example : (loopRun (F := Nat) id 7 2 0 8).map (fun s => (s.passes, s.tests, s.counter)) = some (4, 5, 8) := by decide
 example : (leaves (.and (.cons (.leaf 0 0) (.cons (.not (.leaf 1 0)) .nil)))).Nodup := by decide
